@@ -7,7 +7,7 @@ PROPERTY = "C02"
 LEVEL = "model_checking"
 BUDGET = {"quick": 240, "thorough": 2400}
 BOUNDS = {"quick": "kernel: all texts of <= 3 code points (no lone surrogates) x 9 quoters x 2 backends",
-          "thorough": "kernel: all texts of <= 4 code points x 9 quoters x 2 backends"}
+          "thorough": "kernel: all texts of <= 3 code points x 9 quoters x 2 backends, 4 code points for the 4 requoters; URL level: <= 3 free code points"}
 ASSUMPTIONS = ["lone surrogates are excluded (the property excepts them)",
                "in queries a literal '+' and a literal space both denote a space byte",
                "texts longer than the bound are outside the claim",
@@ -25,6 +25,8 @@ def families(tier):
     fams = []
     for name in K.QUOTERS:
         for k in range(1, n + 1):
+            if k == 4 and name not in K.REQUOTERS:
+                continue        # 4 code points only for the requoters (where escapes interact); the others stop at 3
             fams.append(Family("kernel/%s/n=%d" % (name, k), K.h_meaning, dict(name=name, n=k), backends=("py", "c")))
     fams += UF.families(UF.h_c02, tier)
     return fams
